@@ -87,8 +87,8 @@ CLAIMED.update({
         note="Not claimed: views after arbitrary many-packet histories (deletion/reordering/splicing are not a solver domain) - the claim is for the stated log prefixes (4 logs quick / 7 thorough) plus one symbolic packet; windows over embedded device ids, names and zone masks are thorough-tier only. Trusted: z3, symx, the bare-object stubs, the clock-only stub transport. Found by this check and repaired: the missing try/finally (engine left paused) and BdrSwitch.role raising NameError for a relay listed as a zone actuator.",
         design="4/C13, 7.5"),
     "C16": dict(
-        text="Claimed at the storage-format and filter level: (a) for an arbitrary accepted packet (all frame fields symbolic) the stored text repr(pkt)[:26] -> repr(pkt)[27:] is read back by the real Packet.from_dict as a packet whose stored text is identical (snapshot -> restore -> snapshot is a fixpoint of the packet set, headers and contexts included); (b) the real get_state over stored messages of any of 12 verb/code kinds with symbolic ages and include_expired: whatever is in the snapshot is allowed by the statement (no request, no write but schedule fragments, nothing expired unless asked), live I/RP state is saved, and every stored line decodes again.",
-        note="Not claimed: equality of the schemas of source and restored gateway, idempotence of restoring into a populated gateway (entity layer). The always-kept expired 313F is a recorded known finding. Time stamps are concrete (dt.fromisoformat is C code).",
+        text="Claimed at the storage-format and filter level: (a) for an arbitrary accepted packet (all frame fields symbolic) the stored text repr(pkt)[:26] -> repr(pkt)[27:] is read back by the real Packet.from_dict as a packet whose stored text is identical (snapshot -> restore -> snapshot is a fixpoint of the packet set, headers and contexts included); (c) gateway level: the snapshot of a real Gateway (a log prefix + one packet with a solver-chosen payload window) is restored into a fresh real Gateway through Gateway.start(cached_packets=...) (real temporary protocol + FileTransport + Packet.from_dict + dispatcher): the second snapshot equals the first cell for cell, restoring once more changes nothing, the snapshot holds no request and no write but schedule fragments. (b) the real get_state over stored messages of any of 12 verb/code kinds with symbolic ages and include_expired: whatever is in the snapshot is allowed by the statement (no request, no write but schedule fragments, nothing expired unless asked), live I/RP state is saved, and every stored line decodes again.",
+        note="Not claimed: equality of the schemas of source and restored gateway (evaluated on the concrete histories only, as a plain execution); histories beyond the stated log prefixes + one symbolic packet. The always-kept expired 313F is a recorded known finding. Time stamps are concrete (dt.fromisoformat is C code).",
         design="4/C16"),
 })
 CLAIMED.update({
